@@ -363,7 +363,25 @@ pub fn suite_eigen(g: &G) -> Value {
                 }
                 calls.push(call);
             }
-            groups.push(json!({"weighted": weighted, "tol": tol_txt, "calls": calls}));
+            // the documented iteration, repeated here: start at 1/n, x <- normalise(x + A^T x), converged when the
+            // entries moved by less than n * tol in total.  kref_lo / kref_hi: first iteration at which the
+            // movement is below the threshold widened / narrowed by 1e-6 (rounding may differ in the last bits)
+            let thr = n as f64 * tol;
+            let (mut kref_lo, mut kref_hi) = (1_000_000i64, 1_000_000i64);
+            let mut x: HashMap<i32, f64> = names.iter().map(|k| (*k, 1.0 / n as f64)).collect();
+            for k in 1..=1000i64 {
+                let next = eigen_step(g, weighted, &names, &x);
+                let moved: f64 = names.iter().map(|v| (next[v] - x[v]).abs()).sum();
+                if kref_lo == 1_000_000 && moved < thr * (1.0 + 1.0e-6) {
+                    kref_lo = k;
+                }
+                if moved < thr * (1.0 - 1.0e-6) {
+                    kref_hi = k;
+                    break;
+                }
+                x = next;
+            }
+            groups.push(json!({"weighted": weighted, "tol": tol_txt, "calls": calls, "kref_lo": kref_lo, "kref_hi": kref_hi}));
         }
     }
     json!({"groups": groups})
